@@ -414,27 +414,32 @@ DecodeFails(ev) ==
 \* stepwise iterators (C12: interleavings of next() calls with inspection of the source)
 IterOf(a, ev) ==
   [h |-> ev.h, method |-> ev.method, entry |-> ev.entry, hay |-> ev.hay,
-   syms |-> SymsOf(a, ev.hay), it |-> NewIter(ev.method), n |-> 0]
+   syms |-> SymsOf(a, ev.hay), it |-> NewIter(ev.method), n |-> 0, nm |-> 0]
+
+\* a streaming source has delivered only the first `avail` bytes so far (characters are never split)
+AvailOf(ir, ev) == IF "avail" \in DOMAIN ev THEN ev.avail ELSE Len(ir.hay)
+SymsUpTo(syms, avail) == SubSeq(syms, 1, Cardinality({j \in 1..Len(syms) : syms[j][1] <= avail}))
 
 NextFails(s, a, ir, ev) ==
-  LET r   == NextCall(a.aut, ir.it, ir.syms, a.var)
+  LET r   == NextCall(a.aut, ir.it, SymsUpTo(ir.syms, AvailOf(ir, ev)), a.var)
       got == Got(ev.res)
       exp == IF r.m = <<>> THEN <<>> ELSE WithVals(a, <<r.m>>)
       rp  == {MethodProp(ir.method, a.kind)}
-      k   == ir.n + 1
   IN Chk("next.equals_model", rp, got = exp)
-     \* C12/C14: the k-th call returns what the k-th element of the reference run (slice entry,
-     \* uninterrupted) of the same search returned
+     \* C12/C14: the matches come out as in the reference run (slice entry, uninterrupted) of the
+     \* same search: each returned match is the next one of the reference, and when the whole
+     \* haystack has been delivered and the iterator reports exhaustion nothing is missing
      \cup Chk("next.same_as_reference", {"C12", "C14"},
               LET key == RefKey(a, ir.method, ir.hay) IN
               key \in DOMAIN s.seen =>
                  LET ref == s.seen[key] IN
-                 IF k <= Len(ref) THEN got = <<ref[k]>> ELSE got = <<>>)
+                 IF got # <<>> THEN ir.nm + 1 <= Len(ref) /\ got = <<ref[ir.nm + 1]>>
+                 ELSE AvailOf(ir, ev) = Len(ir.hay) => ir.nm = Len(ref))
      \cup Chk("next.lazy", {"C12"},
-              ir.entry = "iter" =>
+              ir.entry \in {"iter", "stream"} =>
                  /\ ev.pulled = Pulled(r.it, ir.syms)
                  /\ (r.m # <<>> => ev.pulled = r.m[2])
-                 /\ (r.m = <<>> => ev.pulled = Len(ir.hay)))
+                 /\ (r.m = <<>> => ev.pulled = AvailOf(ir, ev)))
      \cup Chk("next.linear", {"C13"}, ev.probes <= 2 * Pulled(r.it, ir.syms))
 
 \* ---------------------------------------------------------------------------
@@ -493,8 +498,9 @@ Eff(s, ev, r) ==
          [s EXCEPT !.iters = (ev.it :> IterOf(s.autos[ev.h], ev)) @@ @]
     [] ev.ev = "next" ->
          LET ir == s.iters[ev.it]
-             nc == NextCall(s.autos[ir.h].aut, ir.it, ir.syms, s.autos[ir.h].var)
-         IN [s EXCEPT !.iters[ev.it].it = nc.it, !.iters[ev.it].n = @ + 1]
+             nc == NextCall(s.autos[ir.h].aut, ir.it, SymsUpTo(ir.syms, AvailOf(ir, ev)), s.autos[ir.h].var)
+         IN [s EXCEPT !.iters[ev.it].it = nc.it, !.iters[ev.it].n = @ + 1,
+                      !.iters[ev.it].nm = @ + (IF ev.res = <<>> THEN 0 ELSE 1)]
     [] OTHER -> s
 
 \* ---------------------------------------------------------------------------
